@@ -103,6 +103,60 @@ always ends with the part saved, after `1 +` (number of refusals before the firs
 theorem retries_transparent (l : List Resp) (h : Resp.err ∉ l) : (attempts l).2 = true ∧ 0 < (attempts l).1 :=
   ⟨attempts_saved l h, attempts_pos l⟩
 
+/-- Statement structure of the two loops as read from the source and interpreted by the model: small
+files number their parts `sentParts % partsLimit`, big files with the plain counter (passed on as
+`FilePart: p.id`), the MD5 is fed by a `TeeReader` around the source (not per attempt), and
+`FileTotalParts` is read from `upload.totalParts` when the request is built. -/
+theorem loop_structure :
+    Facts.C32.smallPartIsModLimit = true ∧ Facts.C32.bigPartIsCounter = true ∧
+    Facts.C32.md5ViaTeeReader = true ∧ Facts.C32.totalPartsReadAtSend = true := by decide
+
+/-- The unknown-size `totalParts` race, made explicit: a request is flagged "may carry −1 instead of
+the final count" only in an unknown-size upload whose source ends with a short read, and never for the
+last part (the reader publishes the count before it enqueues that part). -/
+theorem unknown_flag_only_before_last {α} (script : Nat → List Resp) (tp : Int) (n : Nat) (ls : Bool) :
+    ∀ (parts : List α) (i : Nat) (pre : List (Req α)) (q : Req α) (post : List (Req α)),
+      bigReqs script tp n ls i parts = pre ++ q :: post → q.orUnknown = true →
+      tp = -1 ∧ ls = true ∧ post ≠ [] := by
+  intro parts
+  induction parts with
+  | nil => intro i pre q post h; simp [bigReqs] at h
+  | cons p rest ih =>
+    intro i pre q post h hq
+    rw [bigReqs] at h
+    cases pre with
+    | nil =>
+      simp only [List.nil_append, List.cons.injEq] at h
+      obtain ⟨h1, h2⟩ := h
+      subst h1
+      simp only [Bool.and_eq_true, decide_eq_true_eq, Bool.not_eq_true'] at hq
+      refine ⟨hq.1.1, hq.1.2, ?_⟩
+      intro hp
+      rw [hp] at h2
+      have : rest = [] := by
+        cases rest with
+        | nil => rfl
+        | cons a b => simp [bigReqs] at h2
+      simp [this] at hq
+    | cons x pre' =>
+      simp only [List.cons_append, List.cons.injEq] at h
+      exact ih (i + 1) pre' q post h.2 hq
+
+/-- Observation (not a violation of the property, which speaks of *automatic part sizing*): an upload
+of unknown size (`FromReader`) cannot be sized from its length — it keeps the default 128 KiB part size,
+so the part count is `⌈len / 128 KiB⌉` and exceeds 3999 exactly when the stream is longer than
+3999 · 128 KiB. -/
+theorem unknown_size_part_count (src : Bytes) :
+    (match prepare { declared := -1, explicitPs := none } with
+      | .ok r => r == (131072, true, -1)
+      | .error _ => false) = true ∧
+    ((chunks 131072 src).length > 3999 ↔ src.length > 3999 * 131072) := by
+  constructor
+  · decide
+  · rw [chunks, chunksF_length 131072 (by decide) _ _ (Nat.le_refl _)]
+    unfold partsN
+    split <;> omega
+
 /-- Retry transparency is unbounded: after ANY number `n` of consecutive refusals (`false` or
 FLOOD_WAIT) of one part the part is still saved, with exactly `n + 1` identical requests. -/
 theorem retries_unbounded (faults : List Resp) (hf : ∀ r ∈ faults, r = .no ∨ r = .flood)
